@@ -56,6 +56,10 @@ def new_model(rng, kind):
     custom = False
     if kind != "positive" and rng.random() < 0.6:
         ud = unitaries.create_dict(**{l: gen.enc(gen.haar_2x2(rng)) for l in list("AB")[: int(rng.integers(1, 3))]})
+        if rng.random() < 0.4:
+            # a dictionary that does NOT contain all default letters (legal: only the letters used in bases are needed)
+            for l in list(rng.choice(["X", "Y"], size=int(rng.integers(1, 3)), replace=False)):
+                ud.pop(str(l), None)
         custom = True
     st = gen.make_state(kind, am, ph, unitary_dict=ud)
     return {"kind": kind, "st": st, "custom": custom, "last_md": None}
@@ -164,7 +168,7 @@ def history(case, ctx, rng, tmp):
             data = torch.tensor(R.space(nv)[rng.integers(0, 2 ** nv, size=5)], dtype=torch.double)
             kw = {}
             if m["kind"] != "positive":
-                alphabet = sorted(st.unitary_dict) if nv <= 2 else ["X", "Y", "Z"]
+                alphabet = sorted(set(st.unitary_dict) | {"Z"})
                 b = gen.random_bases(rng, 5, nv, alphabet="".join(alphabet), p_z=0.3)
                 b[0] = "Z"
                 kw["input_bases"] = b
